@@ -32,6 +32,11 @@ CHECKS = {
           "Fault injection over every handshake type and role: tens of thousands of mutated streams per run with the oracles 'no panic', 'read buffer within MAXMSGSIZE+9 plus one chunk', 'an error is terminal', 'limit accepted, limit+1 refused'; stack level adds the handshake-interval, slot-release and isolation oracles with real sockets.",
           "CURVE/NOISE deep states are reached only through the live man-in-the-middle (no real attacker cryptography); buffer bound observed on the engine's accumulator; stack timings allow 2 s slack (session minimum lifespan is 1 s); MAXMSGSIZE below the handshake's own frame sizes is skipped (rzmq applies the limit to command frames, so no handshake completes).",
           "DESIGN.md §2 C07"),
+  "C18": ("fault_enumeration",
+          "property-based testing (proptest) over CURVE/NOISE_XX engine pairs: generated message/batch/heartbeat sequences with embedded markers (round-trip + secrecy oracle), record-level tampering by a man in the middle (flip, truncate, drop, duplicate, swap, replay, inject) with a prefix oracle, twin sessions for ciphertext repetition",
+          "Generated search with injected faults: every case runs untouched (everything the sender accepted must be delivered, nothing in clear on the wire, sizes around the 64 KiB record limit) and tampered (the receiver may only deliver an intact prefix and must close).",
+          "Sans-IO engine level; the tamperer has no keys; known findings: heartbeats bypass the record layer, CURVE session keys/nonces repeat across sessions.",
+          "DESIGN.md §2 C18"),
 }
 
 NOT_YET = {
